@@ -37,12 +37,13 @@ def explore(cfg, workdir, depth=None, workers=16, simulate=None, invariants=None
         h = rec["h"]
         key = (f"d{rec['s']['dev']}",) + tuple(e[0] for e in h)
         expect[key] = (tuple(e[1] for e in h), tuple(e[2] for e in h), rec["s"], rec["v"], rec.get("r"),
-                       rec.get("b"), tuple(e[3] for e in h))
+                       rec.get("b"), tuple(e[3] for e in h), rec.get("sw"))
 
     render = getattr(cfg, "render", False)
     template = bool(getattr(cfg, "assignments", None))
-    inv = invariants or (("EmitR", "RenderInv") if render else ("EmitB",) if template else ("Emit",)) \
-        + ("TilingInv", "TypeOK")
+    switch = getattr(cfg, "switch", False)
+    inv = invariants or (("EmitR", "RenderInv") if render else ("EmitB",) if template
+                         else ("EmitS",) if switch else ("Emit",)) + ("TilingInv", "TypeOK")
     res = run_tlc(workdir, "MC_gen", cfg.cfg_text(inv, depth), cfg.gen_module(),
                   on_line=on_line, workers=workers, simulate=simulate, timeout=timeout)
     return res, expect
@@ -79,6 +80,9 @@ def _replay_chunk(keys):
     relations = getattr(cfg, "relations", False)
     if relations:
         from .relations import check_relations
+    switch = getattr(cfg, "switch", False)
+    if switch:
+        from .switch import check_switch
     for key in keys:
         outs, rets, st = expect[key][:3]
         dev_index = dev_of(key)
@@ -113,6 +117,9 @@ def _replay_chunk(keys):
                 why = P.diff(proj, e[2], cfg.ptol, cfg.phase_mod, "s")
                 if not why and render and e[4] is not None:
                     for pred, detail in check_render(run.seq, e[4], proj):
+                        hookv.append((pred, pre, detail))
+                if not why and switch and dev_index in cfg.init_devs:
+                    for pred, detail in check_switch(cfg, run, ctx, proj, e[7]):
                         hookv.append((pred, pre, detail))
                 if not why and relations:
                     for pred, detail in check_relations(cfg, run, ctx, proj):
@@ -200,10 +207,14 @@ def trace_check(cfg, traces, workdir, timeout=3600):
     def on_line(line):
         if line.startswith('"TV|'):
             reports.append(json.loads(unquote_tla_string(line)[3:]))
+        elif line.startswith('"SV|'):
+            r = json.loads(unquote_tla_string(line)[3:])
+            reports.append({"t": r["t"], "l": 0, "drift": False, "v": r["v"]})
 
     gen = cfg.gen_module(name="MC_trace", root="PulserSeqTrace")
     cfgtxt = cfg.cfg_text(invariants=(), depth=0).replace("SPECIFICATION Spec", "SPECIFICATION TraceSpec")
-    cfgtxt = "\n".join(l for l in cfgtxt.split("\n") if not l.strip().startswith("NAssign"))
+    cfgtxt = "\n".join(l for l in cfgtxt.split("\n")
+                       if not l.strip().startswith(("NAssign", "InitDevs")))
     cfgtxt += "\nPOSTCONDITION AllConsumed\n"
     res = run_tlc(workdir, "MC_trace", cfgtxt, gen, on_line=on_line, workers=1, timeout=timeout,
                   env_extra={"TRACE_FILE": path})
